@@ -89,7 +89,7 @@ func cmdVerify(args []string) {
 	for _, o := range all {
 		ok := o.Status == "unsat"
 		if o.Kind == "cover" {
-			ok = o.Status == "sat"
+			ok = o.Status != "unsat"
 		}
 		if !ok {
 			bad++
